@@ -425,8 +425,15 @@ def iterations(prog, f, include_nested=True):
             nm = p[len(ITER):]
             if nm in ELEM_PARAM and t["args"]:
                 cp = None
+                named = False
                 for a in t["args"][1:]:
                     cp = an.closure_of_operand(g, a) or cp
+                if cp is None:
+                    # a workspace function named as the value (`lines.map(split_line)`): its parameters are the closure's, without the
+                    # environment in front
+                    for a in t["args"][1:]:
+                        if a["k"] == "const" and a.get("fn") and prog.fn(a["fn"]) is not None and prog.fn(a["fn"]).kind != "Closure" and a["fn"].startswith(("sfs_core::", "sfs::")):
+                            cp, named = a["fn"], True
                 body = prog.fn(cp) if cp else None
                 if body is None:
                     continue
@@ -434,8 +441,9 @@ def iterations(prog, f, include_nested=True):
                 it.body = body
                 it.blocks = set(body.nodes())
                 it.iter_op = t["args"][0]
-                it.elem_local = ELEM_PARAM[nm]
-                it.acc_local = ACC_PARAM.get(nm)
+                it.elem_local = ELEM_PARAM[nm] - (1 if named else 0)
+                it.acc_local = (ACC_PARAM[nm] - (1 if named else 0)) if nm in ACC_PARAM else None
+                it.named_fn = named
                 out.append(it)
             elif nm == "next":
                 loop = _loop_of(g, b)
